@@ -398,9 +398,10 @@ def run_check(spec, tier, base_seed, nproc=None, n_override=None):
         "coverage": coverage, "assumptions": meta["assumptions"], "wall_s": round(wall, 2),
         "violations": len(new_violations) + len(unshrunk) + len(stuck_reps),
     }
-    os.makedirs(os.path.join(VERIF, "evidence"), exist_ok=True)
-    with open(os.path.join(VERIF, "evidence", "%s.json" % prop), "w") as f:
-        json.dump(evidence, f, indent=1, default=str)
+    if not os.environ.get("VERIF_KEEP_EVIDENCE"):      # (set by bin/seed-run: runs against a deliberately broken tree)
+        os.makedirs(os.path.join(VERIF, "evidence"), exist_ok=True)
+        with open(os.path.join(VERIF, "evidence", "%s.json" % prop), "w") as f:
+            json.dump(evidence, f, indent=1, default=str)
 
     # ---- report
     print("  %d cases, %d simulated runs, %d distinct fingerprints, %.0f s simulated, %.1f s wall"
